@@ -169,6 +169,11 @@ func mapsEqual(a, b map[string]string) bool {
 	return true
 }
 
+// argText draws a text that can travel as a command-line argument of the helper (no NUL byte)
+func argText(t *rapid.T, min, max, maxBytes int, label string) string {
+	return strings.ReplaceAll(rapid.StringN(min, max, maxBytes).Draw(t, label), "\x00", "?")
+}
+
 func genScenario(t *rapid.T) c20Scenario {
 	var sc c20Scenario
 	sc.base = hx.TempDir("c20base")
@@ -184,7 +189,7 @@ func genScenario(t *rapid.T) c20Scenario {
 		}
 		n := rapid.IntRange(0, 4).Draw(t, "keys")
 		for i := 0; i < n; i++ {
-			if err := m.AddStorageValue(kvstorage.TypeGeneral, fmt.Sprintf("key%d", i), rapid.StringN(0, 40, 80).Draw(t, "val")); err != nil {
+			if err := m.AddStorageValue(kvstorage.TypeGeneral, fmt.Sprintf("key%d", i), argText(t, 0, 40, 80, "val")); err != nil {
 				t.Fatal(err)
 			}
 		}
@@ -195,7 +200,7 @@ func genScenario(t *rapid.T) c20Scenario {
 		case n > 0 && rapid.Bool().Draw(t, "overwrite"):
 			sc.op, sc.args = "kv-add", []string{"key0", "overwritten value"}
 		default:
-			sc.op, sc.args = "kv-add", []string{"newkey", rapid.StringN(1, 30, 60).Draw(t, "newval")}
+			sc.op, sc.args = "kv-add", []string{"newkey", argText(t, 1, 30, 60, "newval")}
 		}
 		return sc
 	}
@@ -219,7 +224,7 @@ func genScenario(t *rapid.T) c20Scenario {
 	sc.target = "w.wlt"
 	switch rapid.IntRange(0, 3).Draw(t, "wop") {
 	case 0:
-		sc.op, sc.args = "wallet-label", []string{"w.wlt", "renamed " + rapid.StringN(0, 10, 20).Draw(t, "label")}
+		sc.op, sc.args = "wallet-label", []string{"w.wlt", "renamed " + argText(t, 0, 10, 20, "label")}
 	case 1:
 		sc.op, sc.args = "wallet-newaddr", []string{"w.wlt", strconv.Itoa(rapid.IntRange(1, 3).Draw(t, "more"))}
 	case 2:
